@@ -31,7 +31,7 @@ CONSTANTS
   \* @type: Set(Str);
   Sources
 
-\* (the @type comments are for Apalache, which checks the inductive invariant of spec/IndPipe.tla)
+\* (the @type comments are for Apalache, which checks the inductive invariant of spec/apalache/IndPipe.tla)
 VARIABLES
   \* @type: Str -> Bool;
   up,       \* [Tables -> BOOLEAN]
